@@ -256,6 +256,47 @@ fn run_regex(kvs: &[Kv]) -> Result<u64, String> {
     .and_then(|x| x)
 }
 
+/// Every composition of depth <= 2 of the shipped automata (built from the
+/// real combinator types), searched with bounds; oracle = the explicit
+/// product DFA of the same expression (C18's specification).
+fn run_compositions(kvs: &[Kv], part: usize, parts: usize) -> Result<u64, String> {
+    use super::c18::{exprs_depth2, leaves_full, real, spec};
+    let bytes = front::build(Front::RawInsert, (3, 3), kvs)?;
+    guard(|| {
+        let f = Fst::new(&bytes[..]).map_err(|e| format!("{:?}", e))?;
+        let leaves = leaves_full();
+        let idx: Vec<usize> = (0..9).collect(); // AlwaysMatch, 4 x Str, 4 x Subsequence
+        let exprs = exprs_depth2(&idx);
+        let bk = bound_set(false, 1);
+        let mut n = 0;
+        for (xi, e) in exprs.iter().enumerate() {
+            if xi % parts != part {
+                continue;
+            }
+            let sp = spec(e, &leaves);
+            let accepted: Vec<Kv> = kvs.iter().filter(|(k, _)| sp.accepts(k)).cloned().collect();
+            for lo in LOS {
+                for lok in &bk {
+                    if lo == Lo::None && !lok.is_empty() { continue; }
+                    for hi in HIS {
+                        for hik in &bk {
+                            if hi == Hi::None && !hik.is_empty() { continue; }
+                            let got = drain(apply_bounds(f.search(real(e, &leaves)), lo, lok, hi, hik).into_stream())?;
+                            let want: Vec<Kv> = accepted.iter().filter(|(k, _)| in_range(k, lo, lok, hi, hik)).cloned().collect();
+                            n += 1;
+                            if got != want {
+                                return Err(format!("search {} with {:?}({}) {:?}({}) gave {} expected {}", e.show(&leaves), lo, key_str(lok), hi, key_str(hik), kvs_str(&got), kvs_str(&want)));
+                            }
+                        }
+                    }
+                }
+            }
+        }
+        Ok(n)
+    })
+    .and_then(|x| x)
+}
+
 fn dfa_json(a: &TableDfa) -> Value {
     json!({"classes": format!("{:?}", a.classes), "delta": a.delta, "accept": a.accept, "can": a.can})
 }
@@ -278,6 +319,7 @@ pub fn replay(case: &Value) -> Result<String, String> {
             run_case(&kvs, geom, &auts, case["bmax"].as_u64().unwrap() as usize, true).map(|n| format!("{} searches agree", n))
         }
         "shipped" => run_shipped(&kvs).map(|n| format!("{} searches agree", n)),
+        "compositions" => run_compositions(&kvs, 0, 1).map(|n| format!("{} searches agree", n)),
         _ => run_regex(&kvs).map(|n| format!("{} searches agree", n)),
     }
 }
@@ -307,7 +349,7 @@ fn do_table(kvs: &[Kv], geom: Geom, auts: &Arc<Vec<TableDfa>>, bmax: usize, wrap
 pub fn plan(tier: Tier) -> Plan {
     let mut p = Plan::new("C04", "model_checking");
     let thorough = tier.thorough();
-    p.rule = "FST x bounds x generated contract-abiding automata: every table DFA with 1..2 states (thorough: 3) over two byte classes, every accepting set, every sound can_match assignment (true where an accepting state is reachable, free elsewhere); search and search_with_state through raw Fst (Map/Set wrappers on small sets); oracle = independent run of the table over each model key incl. the reported state; plus shipped automata/combinators/Levenshtein and regex-automata dense DFAs against specification predicates. accept_eof is never overridden. non-trivial = distinct (automaton, FST) pairs with >= 2 keys".into();
+    p.rule = "FST x bounds x generated contract-abiding automata: every table DFA with 1..2 states (thorough: 3) over two byte classes, every accepting set, every sound can_match assignment (true where an accepting state is reachable, free elsewhere); search and search_with_state through raw Fst (Map/Set wrappers on small sets); oracle = independent run of the table over each model key incl. the reported state; plus shipped automata/combinators/Levenshtein and regex-automata dense DFAs against specification predicates. every composition of depth <= 2 of AlwaysMatch/Str/Subsequence under StartsWith/Complement/Union/Intersection (real combinator types) against the explicit product DFA; accept_eof is never overridden. non-trivial = distinct (automaton, FST) pairs with >= 2 keys".into();
     p.assumptions = vec!["contract-abiding = deterministic table, sound can_match, default accept_eof".into()];
     let mut auts = all_dfas(1, ClassFn::IsA, false);
     auts.extend(all_dfas(2, ClassFn::IsA, false));
@@ -422,6 +464,24 @@ pub fn plan(tier: Tier) -> Plan {
             }));
         }
     }
-    p.must_be_nonzero = vec!["shipped_searches".into(), "regex_searches".into()];
+    // (f) every depth <= 2 composition of the shipped automata
+    {
+        let u = u_ab3();
+        let sets: Vec<u64> = if thorough { vec![(1 << 15) - 1, 0x5a5a, 0x2d2d, 0x00ff, 0x7f00, 0x1] } else { vec![(1 << 15) - 1, 0x5a5a] };
+        for mask in sets {
+            for part in 0..16usize {
+                let u = u.clone();
+                p.units.push(unit("shipped-automata-all-compositions-depth<=2", format!("compositions mask {:x} part {}", mask, part), move |st, rep| {
+                    let kvs = Pat::Lin3.apply(&select(&u.keys, mask));
+                    st.states += 1;
+                    match run_compositions(&kvs, part, 16) {
+                        Ok(n) => { st.evals += n; st.transitions += n; st.count("composition_searches", n); st.nontrivial += n / 81; }
+                        Err(msg) => rep.violation(format!("composition {}", msg.split(" with ").next().unwrap_or("")), msg, json!({"kind": "compositions", "kvs": kvs_json(&kvs)})),
+                    }
+                }));
+            }
+        }
+    }
+    p.must_be_nonzero = vec!["shipped_searches".into(), "regex_searches".into(), "composition_searches".into()];
     p
 }
